@@ -32,3 +32,49 @@ Definition run_case (code_file : str) (debug_file did_raw cid_raw : option str) 
     | None => (0, [])
     | Some l => match moz_lookup l with Ret l' => (1, server_rel l') | _ => (2, []) end
     end ].
+
+(* ---- url probe predictions (C17/UrlModel.v) -------------------------------------------
+   [url_case]: the request paths HttpSymbolSupplier makes, in order, for
+     locate_symbols, locate_file(Binary), locate_file(ExtraDebugInfo)
+   against a server whose base path is [base_path] ([cab] = feature mozilla_cab_symbols).
+   Each prediction is (tag, path): tag 1 = a request with this path, 2 = the URL leaves the server. *)
+From RM Require Import C17.UrlModel.
+
+Definition predict (base_path rel : str) : Z * str :=
+  match request_path base_path rel with Some r => (1, r) | None => (2, []) end.
+
+Definition file_requests (cab : bool) (base_path : str) (o : option file_lookup) : list (Z * str) :=
+  match o with
+  | None => []
+  | Some l =>
+      predict base_path (server_rel l) ::
+      (if cab then match moz_lookup l with Ret l' => [predict base_path (server_rel l')] | _ => [(3, [])] end
+       else [])
+  end.
+
+Definition url_case (cab : bool) (base_path code_file : str) (debug_file did_raw cid_raw : option str)
+  : list (list (Z * str)) :=
+  let dbg_id := option_map render_breakpad did_raw in
+  let code_id := option_map code_id_new cid_raw in
+  let sym :=
+    match debug_file, dbg_id with
+    | Some _, Some _ =>
+        match lookup KBreakpadSym code_file debug_file dbg_id code_id with
+        | Some l => [predict base_path (server_rel l)] | None => [] end
+    | _, _ =>
+        match code_info_breakpad_sym_lookup code_file code_id with
+        | Some p => [predict base_path p] | None => [] end
+    end in
+  [ sym;
+    file_requests cab base_path (lookup KBinary code_file debug_file dbg_id code_id);
+    file_requests cab base_path (lookup KExtraDebugInfo code_file debug_file dbg_id code_id) ].
+
+(* [base_case]: the server URL is "http://host/" ++ suffix (HttpSymbolSupplier::new appends '/'
+   unless it ends with one; Url::parse then runs the same path parser); the request for the plain
+   lookup path [rel] *)
+Definition base_case (suffix rel : str) : Z * str :=
+  let raw := if last_is is_slash suffix then suffix else
+             match suffix with [] => [] | _ => suffix ++ [47] end in
+  let inp := filter (fun c => negb (tab_or_nl c)) (rev (drop_while c0_or_space (rev raw))) in
+  let base_path := path_steps [47] (split_seps (path_part inp)) in
+  predict base_path rel.
